@@ -64,6 +64,9 @@ def convolve(f, weights, mode='reflect', cval=0.0, out=None, output=None):
     if f.ndim != weights.ndim:
         raise ValueError('mahotas.convolve: `f` and `weights` must have the same dimensions')
     output = _get_output(f, out, 'convolve', output=output)
+    if np.may_share_memory(f, output):
+        # the kernel reads its input while it writes the output
+        f = f.copy()
     _check_mode(mode, cval, 'convolve')
     return _convolve.convolve(f, weights, output, mode2int[mode])
 
@@ -112,6 +115,9 @@ def convolve1d(f, weights, axis, mode='reflect', cval=0., out=None):
         weights = weights.astype(f.dtype, copy=False)
         weights = np.ascontiguousarray(weights, dtype=np.double)
         out = _get_output(f, out, 'convolve1d')
+        if np.may_share_memory(f, out):
+            # the kernel reads its input while it writes the output
+            f = f.copy()
         indices = [a for a in range(f.ndim) if a != axis] + [axis]
         rindices = [indices.index(a) for a in range(f.ndim)]
         f = f.transpose(indices)
@@ -167,6 +173,9 @@ def median_filter(f, Bc=None, mode='reflect', cval=0.0, out=None, output=None):
     rank = Bc.sum()//2
     _check_rank(Bc, rank, 'median_filter')
     output = _get_output(f, out, 'median_filter', output=output)
+    if np.may_share_memory(f, output):
+        # the kernel reads its input while it writes the output
+        f = f.copy()
     _check_mode(mode, cval, 'median_filter')
     return _convolve.rank_filter(f, Bc, output, int(rank), mode2int[mode])
 
@@ -201,6 +210,9 @@ def mean_filter(f, Bc, mode='ignore', cval=0.0, out=None):
     '''
     Bc = morph.get_structuring_elem(f, Bc)
     out = _get_output(f, out, 'mean_filter', dtype=np.float64)
+    if np.may_share_memory(f, out):
+        # the kernel reads its input while it writes the output
+        f = f.copy()
     _check_mode(mode, cval, 'mean_filter')
     return _convolve.mean_filter(f, Bc, out, mode2int[mode], cval)
 
@@ -245,6 +257,9 @@ def rank_filter(f, Bc, rank, mode='reflect', cval=0.0, out=None, output=None):
     Bc = morph.get_structuring_elem(f, Bc)
     _check_rank(Bc, rank, 'rank_filter')
     output = _get_output(f, out, 'rank_filter', output=output)
+    if np.may_share_memory(f, output):
+        # the kernel reads its input while it writes the output
+        f = f.copy()
     _check_mode(mode, cval, 'rank_filter')
     return _convolve.rank_filter(f, Bc, output, rank, mode2int[mode])
 
@@ -287,6 +302,9 @@ def template_match(f, template, mode='reflect', cval=0., out=None, output=None):
     if f.ndim != template.ndim:
         raise ValueError('mahotas.template_match: `f` and `template` must have the same number of dimensions')
     output = _get_output(f, out, 'template_match', output=output)
+    if np.may_share_memory(f, output):
+        # the kernel reads its input while it writes the output
+        f = f.copy()
     _check_mode(mode, cval, 'template_match')
     return _convolve.template_match(f, template, output, mode2int[mode], 0)
 
